@@ -12974,6 +12974,17 @@ tsk_table_collection_subset(tsk_table_collection_t *self, const tsk_id_t *nodes,
     if (ret != 0) {
         goto out;
     }
+    /* Refuse arguments we cannot handle before the tables are cleared */
+    for (k = 0; k < (tsk_id_t) num_nodes; k++) {
+        if (nodes[k] < 0 || nodes[k] >= (tsk_id_t) tables.nodes.num_rows) {
+            ret = tsk_trace_error(TSK_ERR_NODE_OUT_OF_BOUNDS);
+            goto out;
+        }
+    }
+    if (tables.migrations.num_rows != 0) {
+        ret = tsk_trace_error(TSK_ERR_MIGRATIONS_NOT_SUPPORTED);
+        goto out;
+    }
     ret = tsk_table_collection_clear(self, 0);
     if (ret != 0) {
         goto out;
@@ -13019,10 +13030,6 @@ tsk_table_collection_subset(tsk_table_collection_t *self, const tsk_id_t *nodes,
         }
     } else {
         for (k = 0; k < (tsk_id_t) num_nodes; k++) {
-            if (nodes[k] < 0 || nodes[k] >= (tsk_id_t) tables.nodes.num_rows) {
-                ret = tsk_trace_error(TSK_ERR_NODE_OUT_OF_BOUNDS);
-                goto out;
-            }
             j = tables.nodes.individual[nodes[k]];
             if (j != TSK_NULL) {
                 individual_map[j] = 0;
@@ -13076,10 +13083,6 @@ tsk_table_collection_subset(tsk_table_collection_t *self, const tsk_id_t *nodes,
     /* TODO: Subset the migrations table. We would need to make sure
      * that we don't remove populations that are referenced, so it would
      * need to be done before the next code block. */
-    if (tables.migrations.num_rows != 0) {
-        ret = tsk_trace_error(TSK_ERR_MIGRATIONS_NOT_SUPPORTED);
-        goto out;
-    }
 
     if (keep_unreferenced) {
         // Keep unused populations
